@@ -47,7 +47,8 @@ Proof. intros r s m g m' t H E. exact (proj2 (regfile_no_failure_lemma r s m g m
 
 (* ---- the body rewrite ---- *)
 (* on every tree ast.Modify cannot panic on: ok=false exactly for the documented bail-outs
-   ([bails]: function literal, x++/x--, ++x/--x, macro parameter of that name), otherwise the
+   ([bails]: function literal, x++/x--, ++x/--x, x(..), a map literal with x as key twice,
+   macro parameter of that name), otherwise the
    result is the tree in which exactly the identifiers of that name at the positions Modify
    visits are replaced by the register ([subst_reg]; not the Function child of a call, nothing
    under a function literal since those give up) *)
@@ -108,7 +109,7 @@ Example C05_ex_machine :
   = (GPanic PRuntime, mkM [0; 8] 1 1, [(1,0);(2,0);(3,0);(4,0);(5,0);(6,0);(7,0);(8,0);(8,0);(8,0);(8,1);(8,1);(8,1)]).
 Proof. vm_compute. reflexivity. Qed.
 
-(* the rewrite on `n = n + 1; m.n; n(n); {n:1, n:2}` for the name n, and its three bail-outs *)
+(* the rewrite on `n = n + 1; m(n); {n:1, m:n}` for the name n, and its bail-outs *)
 Definition tkn (ty : Z) (s : list N) : tok := mkTok ty s.
 Definition idn : node := NIdent (tkn token_IDENT [110%N]).
 Definition idm : node := NIdent (tkn token_IDENT [109%N]).
@@ -118,15 +119,17 @@ Definition two : node := NInt (tkn token_INT [50%N]) 2.
 Example C05_ex_rewrite :
   modify_register [110%N]
     (NStmts [Some (NInfix (tkn token_ASSIGN [61%N]) (Some idn) (Some (NInfix (tkn token_PLUS [43%N]) (Some idn) (Some one))));
-             Some (NCall (tkn token_LPAREN [40%N]) (Some idn) (Some [Some idn]));
-             Some (NMap (tkn token_LBRACE [123%N]) [(Some idn, Some one); (Some idn, Some two)])])
+             Some (NCall (tkn token_LPAREN [40%N]) (Some idm) (Some [Some idn]));
+             Some (NMap (tkn token_LBRACE [123%N]) [(Some idn, Some one); (Some idm, Some idn)])])
   = ROk (NStmts [Some (NInfix (tkn token_ASSIGN [61%N]) (Some (reg_node [110%N]))
                           (Some (NInfix (tkn token_PLUS [43%N]) (Some (reg_node [110%N])) (Some one))));
-                 Some (NCall (tkn token_LPAREN [40%N]) (Some idn) (Some [Some (reg_node [110%N])]));
-                 Some (NMap (tkn token_LBRACE [123%N]) [(Some (reg_node [110%N]), Some two); (Some (reg_node [110%N]), Some two)])])
+                 Some (NCall (tkn token_LPAREN [40%N]) (Some idm) (Some [Some (reg_node [110%N])]));
+                 Some (NMap (tkn token_LBRACE [123%N]) [(Some (reg_node [110%N]), Some one); (Some idm, Some (reg_node [110%N]))])])
   /\ modify_register [110%N] (NStmts [Some (NPostfix (tkn token_INCR [43%N;43%N]) (tkn token_IDENT [110%N]))]) = RBail
   /\ modify_register [110%N] (NStmts [Some (NPrefix (tkn token_DECR [45%N;45%N]) (Some idn))]) = RBail
   /\ modify_register [110%N] (NStmts [Some (NFunc (tkn token_FUNC []) None (Some []) (Some (NStmts [])) false true)]) = RBail
+  /\ modify_register [110%N] (NStmts [Some (NCall (tkn token_LPAREN [40%N]) (Some idn) (Some [Some one]))]) = RBail
+  /\ modify_register [110%N] (NStmts [Some (NMap (tkn token_LBRACE [123%N]) [(Some idn, Some one); (Some idn, Some two)])]) = RBail
   /\ modify_register [110%N] (NStmts [Some (NPrefix (tkn token_DECR [45%N;45%N]) (Some idm))])
      = ROk (NStmts [Some (NPrefix (tkn token_DECR [45%N;45%N]) (Some idm))]).
 Proof. vm_compute. repeat split; reflexivity. Qed.
